@@ -63,7 +63,8 @@ def self_test(pid):
         pick = []
     jobs = ([(os.path.basename(d), ("patch", os.path.join(d, "patch.diff")), True) for d in seeds] + [(n, ("sed", f, e), False) for n, f, e in harmless]
             + [("harmless/" + os.path.basename(h), ("patch", h), False) for h in dict.fromkeys(pick)])
-    for name, how, must_fail in jobs:
+    def one(job):
+        name, how, must_fail = job
         S = tempfile.mkdtemp(prefix="verif-selftest.")
         try:
             subprocess.run(["rsync", "-a", "--exclude", ".git", "--exclude", "__pycache__", "/repo/", S + "/"], check=True)
@@ -72,16 +73,19 @@ def self_test(pid):
             else:
                 ok = subprocess.run(["sed", "-i", "-z", "-e", how[2], os.path.join(S, how[1])], capture_output=True).returncode == 0
             if not ok:
-                res.append(dict(change=name, applied=False))
-                continue
+                return dict(change=name, applied=False)
             env = dict(os.environ, VERIF_REPO=S, VERIF_OUT=os.path.join(S, "_out"), VERIF_TIER="quick")
-            p = subprocess.run([os.path.join(VERIF, "bin", "check"), pid, "--tier", "quick"], capture_output=True, text=True, env=env, timeout=1800)
-            res.append(dict(change=name, applied=True, expected="VIOLATION" if must_fail else "green", exit=p.returncode,
-                            as_expected=(p.returncode == 1) if must_fail else (p.returncode == 0)))
+            p = subprocess.run([os.path.join(VERIF, "bin", "check"), pid, "--tier", "quick"], capture_output=True, text=True, env=env, timeout=3600)
+            return dict(change=name, applied=True, expected="VIOLATION" if must_fail else "green", exit=p.returncode,
+                        as_expected=(p.returncode == 1) if must_fail else (p.returncode == 0))
         except Exception as e:
-            res.append(dict(change=name, error=str(e)[:100]))
+            return dict(change=name, error=str(e)[:100])
         finally:
             shutil.rmtree(S, ignore_errors=True)
+    # the changes are independent scratch copies: four at a time (each quick check has its own worker pools)
+    from concurrent.futures import ThreadPoolExecutor
+    with ThreadPoolExecutor(max_workers=4) as ex:
+        res = list(ex.map(one, jobs))
     return res
 
 
